@@ -32,7 +32,7 @@ def nodel_class(B):
 
 class SymMgr:
     def __init__(self, N, K, L, names=None, with_cache=True, with_refs=True,
-                 tag='0'):
+                 tag='0', cache_model='array', cache_entries=2):
         self.N, self.K, self.L = N, K, L
         self.maxid = N + K
         self.ids = list(range(1, N + 1))
@@ -47,6 +47,13 @@ class SymMgr:
         self.bdd = None
         self.tag = tag
         self.axst = self.st0      # state the lookup axioms (I3/I6 second halves) speak about
+        # 'array': the computed table is an arbitrary valid array (unbounded
+        # number of entries, cannot be iterated); 'assoc': at most
+        # `cache_entries` arbitrary valid entries in an association list
+        # (can be iterated / filtered by the code under analysis)
+        self.cache_model = cache_model
+        self.cache_entries = cache_entries
+        self.assoc = []
 
     # ---- pre-state
     def pre_axioms(self, room=True):
@@ -79,7 +86,24 @@ class SymMgr:
         bdd._succ = self.succ = SuccTab(st, self.maxid)
         bdd._pred = self.pred = Tab3(st, 'PR', self.pred_axiom)
         bdd._ref = self.ref = RefTab(st, self.maxid)
-        if self.with_cache:
+        if self.with_cache and self.cache_model == 'assoc':
+            from . import hcont
+            c = engine.CTX
+            tab = hcont.HDict()
+            den = self.den
+            for j in range(self.cache_entries):
+                if not c.choose(2, 'cache-entry'):
+                    continue
+                g, u, v, r = (z3.Int(f'ce{j}{x}{self.tag}') for x in 'guvr')
+                c.assume(z3.And(self.present0(g), self.present0(u), self.present0(v),
+                                self.present0(r),
+                                den.s(r) == den.ite(den.s(g), den.s(u), den.s(v))))
+                self.assoc.append((g, u, v, r))
+                tab[(SymInt(g), SymInt(u), SymInt(v))] = SymInt(r)
+            bdd._ite_table = tab
+            self.itab = None
+            self.assoc_tab = tab
+        elif self.with_cache:
             bdd._ite_table = self.itab = Tab3(st, 'IT', self.ite_axiom)
         else:
             self.itab = None
@@ -126,7 +150,7 @@ class SymMgr:
             self.pred_rebuilt = [
                 (k, v) for k, v in bdd._pred.items() if k[1] is not None]
         self.cache_rebuilt = None
-        if self.with_cache and bdd._ite_table is not self.itab:
+        if self.with_cache and (bdd._ite_table is not self.itab or self.cache_model == 'assoc'):
             self.cache_rebuilt = list(bdd._ite_table.items())
 
     def define_new_nodes(self):
@@ -261,6 +285,9 @@ class SymMgr:
                 ref[str(k)] = evi(z3.Select(st.RF, k))
                 ext[str(k)] = evi(z3.Select(self.ext, k))
         cache = []
+        if self.with_cache and self.cache_model == 'assoc' and which == 'pre':
+            for ent in self.assoc:
+                cache.append([evi(t) for t in ent])
         if self.with_cache and self.itab is not None and which == 'pre':
             seen = set()
             for key in self.itab.lookups:
